@@ -10,6 +10,9 @@ KS_NOTE = ("Trusted: TLC, the transcription of the Redis command reference in sp
            "(memdb/verif_inspect.go). B1 is exhaustive only within the instance bounds; B2 is sampled.")
 
 CHECKS = {
+    "C06": dict(cat="model_checking", ref="§C06", technique="TLA+ keyspace model with explicit time (MC_Expire.tla: Tick action, deadline windows) model-checked by TLC; its transitions incl. Tick replayed on the real clock (ttltour) and random ttl programmes; recorded traces validated by TraceKs.tla",
+                text="TLC checks the clauses of C06 on the model (nothing expires early, nothing survives its deadline window, keys without deadline never expire, EXPIRE NX/XX conditions, PERSIST/overwrite clear, KEEPTTL keeps) and emits every transition; about a thousand programmes (path + command + probes over the next two seconds, for every branch label x model second x deadline class) run concurrently on the real clock, each on its own server, and every reply is validated against the spec with the observed second.",
+                note="Trusted: TLC, KsCore deadline-window semantics (one-second granularity as the property states), the wall clock of the host. Commands lacking a lazy expiry check are accepted as long as the active timer removes the key within the deadline second + 1."),
     "C03": dict(cat="model_checking", ref="§C03", technique="the TLC transition tables of every keyspace instance replayed at the wire level (pipelined batches through Manager.Handle, CR LF payload substitution, independent RESP decoder); random programmes pipelined over net.Pipe and TCP with PING-nonce alignment, validated by TraceKs.tla",
                 text="For every branch label of every family's bounded model, setup + path + command are written as one pipelined batch into the real connection handler and the reply stream must split into exactly one well-formed reply per command with the expected content, with CR LF inside every payload position; random programmes are pipelined in random batch sizes and write chunks through Manager.Handle and to the real binary over TCP, each command followed by PING <nonce> whose echo pins count and order.",
                 note="Trusted: harness/respcodec (independent decoder), TLC/TraceKs.tla for content. Only count/decodability/alignment/nil-result failures are C03 verdicts; content mismatches are left to the family properties. Pub/Sub pushes are outside (C19)."),
